@@ -6,6 +6,7 @@ import (
 	"path/filepath"
 	"sort"
 	"strings"
+	"sync/atomic"
 	"syscall"
 
 	"github.com/tonistiigi/fsutil"
@@ -276,7 +277,7 @@ func c01Run(c *core.Ctx) *core.Result {
 		}
 	}
 	var prior *tree.Tree
-	kinds := []string{"empty", "unrelated", "mutated", "collide", "leftovers"}
+	kinds := []string{"empty", "unrelated", "mutated", "collide", "leftovers", "aborted", "aborted"}
 	kind := core.Pick(R, kinds)
 	switch kind {
 	case "empty":
@@ -292,6 +293,15 @@ func c01Run(c *core.Ctx) *core.Result {
 		prior = src.Clone()
 		mutate(R, prior, R.Range(0, 3), eo)
 		addLeftovers(R, prior, eo)
+	case "aborted":
+		// whatever a real transfer of this source leaves behind when the
+		// stream is torn down at a random point (done below, after the
+		// source exists)
+		prior = &tree.Tree{}
+		if R.P(1, 2) {
+			prior = src.Clone()
+			mutate(R, prior, R.Range(1, 4), eo)
+		}
 	}
 	if unpriv {
 		for i := range prior.Entries {
@@ -339,6 +349,26 @@ func c01Run(c *core.Ctx) *core.Result {
 	if unpriv {
 		os.Chmod(c.Dir, 0755)
 		os.Lchown(dest, 1234, 1234)
+	}
+	if kind == "aborted" {
+		var ap *wire.Pair
+		var n atomic.Int64
+		at := int64(R.Intn(70))
+		acfg := wire.Config{Cap: core.Pick(R, []int{0, 1, 8}), Fault: func(end, op string, idx int64) error {
+			if n.Add(1) == at {
+				ap.Teardown()
+			}
+			return nil
+		}}
+		abort := func() {
+			runSync(syncOpt{Cfg: acfg, Src: fs, Dest: dest, Recv: fsutil.ReceiveOpt{}, OnPair: func(p *wire.Pair) { ap = p }})
+		}
+		if unpriv {
+			asUser(1234, 1234, abort)
+		} else {
+			abort()
+		}
+		r.Count("priors_left_by_an_aborted_transfer", 1)
 	}
 	old, err := tree.Snapshot(dest, tree.SnapOpt{})
 	if err != nil {
@@ -398,6 +428,27 @@ func c01Run(c *core.Ctx) *core.Result {
 		exp, created = expectMerge(view, old)
 	} else {
 		exp, created = expectSync(view, old, got)
+	}
+	if kind == "aborted" {
+		// leftovers of a real aborted run: the statement demands the source's
+		// bytes, whatever size and mtime the aborted run stamped on its
+		// partial files (the edit generator never leaves equal identity with
+		// different bytes, so this is strict only for what the abort left)
+		vi := view.Index()
+		for i := range exp.Entries {
+			e := &exp.Entries[i]
+			if e.Type != tree.File {
+				continue
+			}
+			if j, ok := vi[e.Path]; ok {
+				e.Data = view.Entries[j].Data
+				if l := view.Entries[j].LinkTo; l != "" {
+					if k, ok := vi[l]; ok {
+						e.Data = view.Entries[k].Data
+					}
+				}
+			}
+		}
 	}
 	diffs := tree.Diff(exp, got, syncMask(created))
 	r.Count("entries_compared", int64(len(exp.Entries)))
